@@ -268,18 +268,23 @@ def normalize_url(
             url = normalize_youtube_url(url)
 
     # Parsing
+    # NOTE: an invalid port only raises when accessed
     try:
         splitted = urlsplit(url)
+        port = splitted.port
     except ValueError:
         return original_url_arg
 
     scheme, netloc, path, query, fragment = splitted
-    user, password, hostname, port = (
+    user, password, hostname = (
         splitted.username,
         splitted.password,
         splitted.hostname,
-        splitted.port,
     )
+
+    # NOTE: without hostname there is nothing to normalize
+    if not hostname:
+        return original_url_arg
 
     # Fixing common mistakes
     if fix_common_mistakes and query:
